@@ -264,27 +264,21 @@ def check(run):
     if not ok_order:
         run.violation("R3", h.where, "__hash__ clears _dirty_hash on a path that has not stored a fresh hash",
                       key=key_of("C02-R3", "hash-order"))
-    # early return of the memo must be guarded by `not self._dirty_hash`
+    # a path that returns the memo either saw the flag clear or stored a fresh hash on the way (whatever the nesting
+    # or polarity of the tests: path summaries, sa/pathsum.py)
+    from ..pathsum import summaries
     early_ok = True
-    n_early = 0
-    for st in ast.walk(h.node):
-        if isinstance(st, ast.If):
-            rets = [r for r in st.body if isinstance(r, ast.Return) and isinstance(r.value, ast.Attribute)
-                    and r.value.attr == "_hashed"]
-            if rets:
-                n_early += 1
-                conj = st.test.values if isinstance(st.test, ast.BoolOp) and isinstance(st.test.op, ast.And) else [st.test]
-                guard = any(isinstance(c, ast.UnaryOp) and isinstance(c.op, ast.Not)
-                            and isinstance(c.operand, ast.Attribute) and c.operand.attr == "_dirty_hash" for c in conj)
-                early_ok = early_ok and guard
-    for st in ast.walk(h.node):
-        if isinstance(st, ast.Return) and isinstance(st.value, ast.Attribute) and st.value.attr == "_hashed":
-            n_early -= 0
-    all_memo_returns = [st for st in ast.walk(h.node) if isinstance(st, ast.Return)
-                        and isinstance(st.value, ast.Attribute) and st.value.attr == "_hashed"]
-    guarded_returns = n_early
-    if len(all_memo_returns) > guarded_returns:
-        early_ok = False
+    n_memo_paths = 0
+    rcv = h.params[0]
+    for ps in summaries(h.node):
+        r = ps.exit_node
+        if not (isinstance(r, ast.Return) and isinstance(r.value, ast.Attribute) and r.value.attr == "_hashed"):
+            continue
+        n_memo_paths += 1
+        clean = ps.holds(f"{rcv}._dirty_hash") is False
+        fresh = ps.has_stmt(lambda s_: isinstance(s_, ast.Assign) and any(isinstance(t, ast.Attribute) and t.attr == "_hashed" for t in s_.targets))
+        if not (clean or fresh):
+            early_ok = False
     run.instance("R3", h.where, f"memo returned only under `not self._dirty_hash`: {early_ok}", early_ok)
     if not early_ok:
         run.violation("R3", h.where, "__hash__ can return the memoised value while the dirty flag is set",
@@ -351,32 +345,24 @@ def check(run):
 def _containers(run, ix):
     # DataStore.__hash__: every value of self.data contributes hash(v); only None / empty are skipped
     f = ix.func("trimesh.caching:DataStore.__hash__")
-    comps = [n for n in ast.walk(f.node) if isinstance(n, (ast.ListComp, ast.GeneratorExp))]
+    from ..accum import contributions, flows_to_return
     ok = False
-    what = "no comprehension over self.data.values()"
-    for c in comps:
-        g = c.generators[0]
-        it = ast.unparse(g.iter)
-        if it in ("self.data.values()", "self.data.items()"):
-            elt = ast.unparse(c.elt)
-            var = ast.unparse(g.target)
-            vname = var if it.endswith("values()") else var.strip("()").split(",")[-1].strip()
-            contributes = re.fullmatch(rf"hash\({re.escape(vname)}\)|{re.escape(vname)}\.__hash__\(\)", elt) is not None
-            # allowed filters
-            allowed = True
-            for cond in g.ifs:
-                conj = cond.values if isinstance(cond, ast.BoolOp) and isinstance(cond.op, ast.And) else [cond]
-                for t in conj:
-                    txt = ast.unparse(t)
-                    if txt not in (f"{vname} is not None",
-                                   f"not hasattr({vname}, '__len__') or len({vname}) > 0",
-                                   f"(not hasattr({vname}, '__len__') or len({vname}) > 0)"):
-                        allowed = False
-                        what = f"filter `{txt}` drops members from the hash"
-            if contributes and allowed:
-                ok = True
-            elif not contributes:
-                what = f"element `{elt}` is not the member's own hash"
+    what = "no per-member contribution over self.data.values()"
+    for c in contributions(f.node):
+        if c.iter not in ("self.data.values()", "self.data.items()"):
+            continue
+        v = "_1" if c.iter.endswith("values()") else "_2"
+        contributes = c.elt in (f"hash({v})", f"{v}.__hash__()", f"[hash({v})]", f"({v}.__hash__(),)") and \
+            (c.acc is None or (c.how in ("append", "add", "extend", "Add=", "BitXor=") and flows_to_return(f.node, c.acc)))
+        allowed = {(f"{v} is None", False), (f"not hasattr({v}, '__len__') or len({v}) > 0", True),
+                   (f"hasattr({v}, '__len__')", False), (f"len({v}) > 0", True), (f"len({v}) == 0", False)}
+        extra = [t for t in c.filters if t not in allowed]
+        if extra:
+            what = f"filter `{extra[0][0]}` ({'taken' if extra[0][1] else 'not taken'}) drops members from the hash"
+        elif not contributes:
+            what = f"element `{c.elt}` is not the member's own hash folded into the result"
+        else:
+            ok = True
     run.instance("R4", f.where, f"DataStore hash folds in hash(v) for every stored v (skipping only None/empty): {ok}", ok)
     if not ok:
         run.violation("R4", f.where, f"DataStore.__hash__ does not cover every stored member: {what}",
